@@ -129,6 +129,15 @@ def gen(rng, tier):
             acts.setdefault(str(rng.randrange(len(batches))), []).append(
                 rng.randrange(n))
         kinds.add('activate_race')
+    if rng.random() < 0.3:
+        # ... and one exactly when the final state of that pilot arrives (the
+        # activation then fills in states while the other thread finishes)
+        cand = [(bi, e[0]) for bi, b in enumerate(batches) for e in b
+                if e[2] == 'n' and e[1] in FINAL and e[0] != 'unknown']
+        if cand:
+            bi, p = rng.choice(cand)
+            acts.setdefault(str(bi), []).append(p)
+            kinds.add('activate_race')
     late = None
     if n > 1 and rng.random() < 0.3:
         late = rng.randrange(n)
@@ -137,7 +146,10 @@ def gen(rng, tier):
             'acts': acts, 'late_submit': late,
             'late_at': rng.choice([0.0, 0.0, 0.05, 0.2]),
             'raising_cb': False,
-            'delay_max': rng.choice([0.0, 0.0, 0.05, 0.3])}
+            'delay_max': rng.choice([0.0, 0.0, 0.05, 0.3]),
+            # fault kind `stall`: a manager thread is descheduled for up to
+            # 60 ms at a yield point (the other one then runs a whole update)
+            'stall': rng.choice([0.0, 0.0, 0.05, 0.2])}
 
 
 def run(seed, scenario, trace=None, tier='quick'):
@@ -224,7 +236,12 @@ def run_a(seed, scenario, trace=None, tier='quick'):
                     ps = pmgr.submit_pilots([lpd])
                     ps[0].register_callback(pilot_cb)
                     st['late_pilot'] = ps[0]
-                C.P.Thread(target=app, name='app.submit').start()
+                if sc.get('stall'):
+                    # the application thread is descheduled now and then
+                    # (inside submit_pilots) while the listeners run on
+                    sim.slow['app.submit'] = (min(0.5, 2 * sc['stall']), 0.3)
+                with C.group('app'):
+                    C.P.Thread(target=app, name='app.submit').start()
                 pilots.insert(late, None)
             else:
                 pilots = pmgr.submit_pilots(pds)
@@ -317,7 +334,8 @@ def run_a(seed, scenario, trace=None, tier='quick'):
         return driver
 
     res = C.run_world(seed, build, trace=trace,
-                      max_steps=40000 if tier == 'quick' else 200000)
+                      max_steps=40000 if tier == 'quick' else 200000,
+                      stall_prob=sc.get('stall', 0.0))
     res['nontrivial'] = bool(sc['kinds'])
     return res
 
